@@ -270,7 +270,7 @@ pub fn run_random(tr: &mut Trace, run: u64, seed: u64, prof: Profile) -> RunStat
         if el > horizon_ms {
             break;
         }
-        if tr.lines - tail_lines0 > 150_000 {
+        if tr.lines - tail_lines0 > 40_000 {
             // trace budget of one run exhausted before the horizon: the run is not judged for quiescence
             cut = true;
             break;
